@@ -134,10 +134,10 @@ func VerifC16_Descriptors() {
 	verifrt.Cover("history")
 }
 
-// VerifC16_RenumberFar: fd_renumber to ANY target descriptor 6 .. 2^31-1 (inside the current table or far above it, where
-// the table has to grow by a symbolic amount): the operation is atomic - on success the file is found under the target
-// only and stays open, on failure it is still found under the source and stays open - and the other open descriptor and
-// lowest-free allocation are unaffected.
+// VerifC16_RenumberFar: fd_renumber of an open file to ANY target descriptor 0 .. 2^31-1 other than the second open file
+// (pre-opens, itself, free slots inside the table, far above it where the table grows by a symbolic amount): the
+// operation is atomic - on success the file is found under the target only and stays open, on failure it is still found
+// under the source and stays open - and the other open descriptor and lowest-free allocation are unaffected.
 func VerifC16_RenumberFar() {
 	vfs := &verifFS{}
 	ctx, err := NewContext(0, nil, nil, nil, nil, nil, nil, nil, 0, nil, 0, nil, nil, []experimentalsys.FS{vfs}, []string{"/"}, nil)
@@ -151,22 +151,29 @@ func VerifC16_RenumberFar() {
 	entry4, _ := c.LookupFile(4)
 	entry5, _ := c.LookupFile(5)
 	to := verifrt.I32("to")
-	verifrt.Assume(to >= 6)
+	verifrt.Assume(to >= 0 && to != 5)
 	errno := c.Renumber(4, to)
 	moved, okTo := c.LookupFile(to)
 	orig, okFrom := c.LookupFile(4)
-	if errno == 0 {
+	switch {
+	case to == 4:
+		verifrt.Assert(errno == 0 && okFrom && orig == entry4, "renumbering a descriptor onto itself is a no-op")
+	case to < 4:
+		verifrt.Assert(errno != 0, "renumber onto a pre-open is refused")
+		verifrt.Assert(okFrom && orig == entry4, "a refused renumber leaves the file under its descriptor")
+		verifrt.Cover("refused")
+	case errno == 0:
 		verifrt.Assert(okTo && !okFrom && moved == entry4, "after a successful renumber the file is found under the target only")
 		if to < 4096 { // the witness replayed natively stays small (a far target allocates the whole table natively)
 			verifrt.Cover("moved")
 		}
-	} else {
+	default:
 		verifrt.Assert(okFrom && !okTo && orig == entry4, "a refused renumber leaves the file under its descriptor")
 	}
 	verifrt.Assert(vfs.files[0].closed == 0, "renumbering does not close the moved file")
 	other, ok5 := c.LookupFile(5)
 	verifrt.Assert(ok5 && other == entry5 && vfs.files[1].closed == 0, "other descriptors are unaffected")
-	if errno == 0 {
+	if errno == 0 && to > 5 {
 		fd, e := c.OpenFile(vfs, "c", 0, 0)
 		verifrt.Assert(e == 0 && fd == 4, "the freed descriptor is the lowest free one")
 	}
